@@ -42,7 +42,7 @@ type Obs struct {
 	Texts                         map[int][]string `json:"texts"`
 	Truth                         map[int][]string `json:"truth"`
 	AllIDs                        []int64          `json:"all_ids"`
-	Find, Pluck, RowsIDs          []int64
+	Find, Pluck, RowsIDs, CFind   []int64
 	Count                         int64
 	First                         *int64
 	Batches                       [][]int64
@@ -100,6 +100,14 @@ type Keeper struct {
 	Name      string
 	DeletedAt gorm.DeletedAt
 	Wards     []Ward
+	OrgID     int64
+	Org       *Org
+}
+
+// Org: a plain model reached THROUGH the soft-deletable Keeper (nested joins)
+type Org struct {
+	ID   int64 `gorm:"primaryKey"`
+	Name string
 }
 
 // Ward: a soft-deletable has-many of Keeper (nested preload under a joined relation)
@@ -266,6 +274,16 @@ func (e *env) run(in Input) Obs {
 		if !full {
 			return
 		}
+		{
+			// the pagination idiom: Count, then the read continued from what Count returned
+			var n int64
+			cdst := whr.NewSoftSlice(in.Variant)
+			fail("count_then_find", build(db).Model(whr.NewSoftOne(in.Variant)).Count(&n).Find(cdst).Error)
+			o.CFind = sorted(whr.IDsOf(cdst))
+			if n != *count {
+				o.Errs = append(o.Errs, fmt.Sprintf("Count before Find: %d, Count alone: %d", n, *count))
+			}
+		}
 		o.Pluck = []int64{}
 		fail("pluck", build(db).Model(whr.NewSoftOne(in.Variant)).Pluck("id", &o.Pluck).Error)
 		o.Pluck = sorted(o.Pluck)
@@ -405,17 +423,18 @@ func (e *env) assoc(in Input, twins bool) ([][]int64, [][]int64, []string) {
 			errs = append(errs, w+": "+err.Error())
 		}
 	}
-	for _, t := range []string{"owners", "kids", "keepers", "pets", "wards"} {
+	for _, t := range []string{"owners", "kids", "keepers", "pets", "wards", "orgs"} {
 		fail("reset", db.Exec("DELETE FROM "+t).Error)
 	}
 	for k := int64(0); k < 3; k++ {
 		fail("ins", db.Exec("INSERT INTO owners (id, name) VALUES (?,?)", k+1, "o").Error)
-		fail("ins", db.Exec("INSERT INTO keepers (id, name, deleted_at) VALUES (?,?,NULL)", k+1, "k").Error)
+		fail("ins", db.Exec("INSERT INTO orgs (id, name) VALUES (?,?)", k+1, "o").Error)
+		fail("ins", db.Exec("INSERT INTO keepers (id, name, deleted_at, org_id) VALUES (?,?,NULL,?)", k+1, "k", k+1).Error)
 		fail("ins", db.Exec("INSERT INTO pets (id, keeper_id) VALUES (?,?)", k+1, k+1).Error)
 		fail("ins", db.Exec("INSERT INTO wards (id, keeper_id, deleted_at) VALUES (?,?,NULL)", k+1, k+1).Error)
 		if twins {
 			fail("ins", db.Exec("INSERT INTO wards (id, keeper_id, deleted_at) VALUES (?,?,?)", k+101, k+1, t1).Error)
-			fail("ins", db.Exec("INSERT INTO keepers (id, name, deleted_at) VALUES (?,?,?)", k+101, "k", t1).Error)
+			fail("ins", db.Exec("INSERT INTO keepers (id, name, deleted_at, org_id) VALUES (?,?,?,?)", k+101, "k", t1, k+1).Error)
 			fail("ins", db.Exec("INSERT INTO pets (id, keeper_id) VALUES (?,?)", k+11, k+101).Error)
 		}
 	}
@@ -544,6 +563,30 @@ func (e *env) assoc(in Input, twins bool) ([][]int64, [][]int64, []string) {
 	for _, o := range owners {
 		uout = append(uout, kidIDs(o.Kids))
 	}
+	// a nested join THROUGH the soft-deletable keeper: a marked keeper (and what lies behind it) is
+	// not joined, and an inner join does not match through it
+	pets = nil
+	fail("nested_joins", db.Joins("Keeper.Org").Order("pets.id").Find(&pets).Error)
+	ids = []int64{}
+	for _, p := range pets {
+		if p.ID < 10 {
+			if p.Keeper != nil && p.Keeper.Org != nil {
+				ids = append(ids, p.Keeper.ID, p.Keeper.Org.ID)
+			} else {
+				ids = append(ids, 0, 0)
+			}
+		} else if p.Keeper != nil {
+			errs = append(errs, fmt.Sprintf("nested joins: pet %d got soft-deleted keeper %d", p.ID, p.Keeper.ID))
+		}
+	}
+	out = append(out, ids)
+	pets = nil
+	fail("nested_innerjoins", db.InnerJoins("Keeper.Org").Order("pets.id").Find(&pets).Error)
+	ids = []int64{}
+	for _, p := range pets {
+		ids = append(ids, p.ID)
+	}
+	out = append(out, ids)
 	// a preload nested under a joined relation, scoped and Unscoped, slice and single destination
 	wardIDs := func(k *Keeper) []int64 {
 		ids := []int64{}
@@ -698,7 +741,7 @@ func term(in Input, o Obs) string {
 	}
 	args := []string{whr.GTable(in.Atoms, o.Texts), whr.GCalls(in.Chain, byID), lib.Nat(liveAtom),
 		whr.GRows(o.AllIDs, o.Truth), lib.ZList(live), lib.Str(o.WhereSQL),
-		lib.ZList(o.Find), lib.ZList(o.Pluck), lib.ZList(o.RowsIDs), lib.Z(o.Count), gOZ(o.First), lib.ListOf(o.Batches, lib.ZList),
+		lib.ZList(o.Find), lib.ZList(o.Pluck), lib.ZList(o.RowsIDs), lib.ZList(o.CFind), lib.Z(o.Count), gOZ(o.First), lib.ListOf(o.Batches, lib.ZList),
 		lib.ZList(o.NFind), lib.Z(o.NCount), gOZ(o.NFirst),
 		lib.ZList(o.Update), lib.ZList(o.NUpdate), lib.ZList(o.UpdTwins),
 		lib.ZList(o.Del), lib.ZList(o.NDel), lib.ZList(o.DelTwins), lib.ZList(o.DelAgain),
@@ -714,7 +757,7 @@ func main() {
 	whr.NoIDAtoms = true // a twin differs from its original in the key only
 	db, _, _, err := gdb.Open(gdb.Opt{Config: &gorm.Config{NowFunc: func() time.Time { return t2 }}})
 	lib.Must(err)
-	lib.Must(db.AutoMigrate(&whr.TS{}, &whr.TSZ{}, &Owner{}, &Kid{}, &Keeper{}, &Pet{}, &Ward{}))
+	lib.Must(db.AutoMigrate(&whr.TS{}, &whr.TSZ{}, &Owner{}, &Kid{}, &Keeper{}, &Pet{}, &Ward{}, &Org{}))
 	e := &env{db: db}
 	out := lib.NewOut(a.Out, "C08")
 	out.PerFile = 60
